@@ -4,7 +4,8 @@ case = {'layout': 'multi'|'shared',
         'data': {'kids': [parent choice per kid 1..4], 'links': [bitmask of tags per parent 1..2], 'vals': [ints]},
         'actors': [reader, writer, (writer)],  actor = {'session': {}, 'ops': [...], 'end': 'commit'},
         'schedule': [ints]}
-Actor 0 is the reader (never writes); the others are writers (ordinary optimistic Pony sessions).
+Actor 0 is the reader (it may assign scalar attributes itself, flush and commit() in the middle of its db_session; what it
+assigned counts as observed from then on); the others are writers (ordinary optimistic Pony sessions).
 All ints are reduced modulo the number of candidates.
 
 What the reader *observes* is recorded per operation as [key, value] pairs:
@@ -147,9 +148,15 @@ def committed_value(snap, key):
 # operations
 # ---------------------------------------------------------------------------------------------------------------------
 
-READER_OPS = ['attr', 'attr', 'len', 'iter', 'count', 'in', 'empty', 'bool', 'cload', 'query', 'query', 'todict', 'reread', 'load']
+READER_OPS = ['attr', 'attr', 'len', 'iter', 'count', 'in', 'empty', 'bool', 'cload', 'query', 'query', 'todict', 'reread', 'load',
+              'wattr', 'commit', 'attr', 'query']
+WRITABLE = {'P': ['name', 'n', 'f', 'v'], 'K': ['n', 's'], 'T': ['name']}      # scalar attributes the reading session may assign
 QUERY_KINDS = ['all_K', 'all_P', 'all_T', 'kids_of', 'coll_select', 'prefetch_kids', 'prefetch_tags', 'prefetch_p', 'pairs',
-               'get_K', 'index_K', 'kids_n', 'tags_of', 'prefetch_ps']
+               'get_K', 'index_K', 'kids_n', 'tags_of', 'prefetch_ps',
+               # lookups that are (mostly) answered from the session cache, and queries filtering on another attribute
+               'get_P', 'index_P', 'get_T', 'index_T', 'filter_K', 'filter_P', 'get_K_kw', 'get_P_kw']
+LOOKUP_KINDS = {'K': ['get_K', 'index_K', 'filter_K', 'get_K_kw', 'kids_n'], 'P': ['get_P', 'index_P', 'filter_P', 'get_P_kw'],
+                'T': ['get_T', 'index_T']}
 
 
 def _jsonval(v):
@@ -230,6 +237,25 @@ def make_reader_exec(case):
             ent = ['P', 'K', 'T'][op[1] % 3]
             pk = PKS[ent][op[2] % len(PKS[ent])]
             _get(st, ent, pk).load()
+        elif name == 'wattr':
+            # the session assigns a scalar attribute itself: from now on that value is what it has observed
+            ent = ['P', 'K', 'T'][op[1] % 3]
+            pk = PKS[ent][op[2] % len(PKS[ent])]
+            attrs = WRITABLE[ent]
+            attr = attrs[op[3] % len(attrs)]
+            vc = op[4] if len(op) > 4 else op[3] // 4
+            val = {'name': STRS[vc % 4], 's': STRS[vc % 4], 'n': vc % 7, 'v': vc % 7, 'f': FLOATS[vc % 4]}[attr]
+            setattr(_get(st, ent, pk), attr, val)
+            rec['wrote'] = [[['a', ent, pk, attr], val]]
+            seen0 = st.data.setdefault('seen', [])
+            if ['a', ent, pk, attr] not in seen0:
+                seen0.append(['a', ent, pk, attr])
+        elif name == 'commit':                  # commit in the middle of the db_session, the session goes on
+            from pony.orm import commit
+            commit()
+        elif name == 'flush':
+            from pony.orm import flush
+            flush()
         elif name == 'reread':
             # read again everything this session has observed so far (same kind of read as the first time)
             for key in list(st.data.get('seen', [])):
@@ -272,12 +298,24 @@ def make_reader_exec(case):
                 res = select('x for x in K if x.id > c', g, {'c': c}).prefetch(K.p)[:]
             elif kind == 'pairs':
                 res = [row[0] for row in select('(x, x.p) for x in K if x.id > c', g, {'c': c})[:]]
-            elif kind == 'get_K':
-                o = K.get(id=PKS['K'][op[2] % len(PKS['K'])])
+            elif kind in ('get_K', 'get_P', 'get_T'):
+                ent = kind[-1]
+                o = st.classes[ent].get(id=PKS[ent][op[2] % len(PKS[ent])])
                 res = [] if o is None else [o]
+            elif kind in ('index_K', 'index_P', 'index_T'):
+                ent = kind[-1]
+                res = [st.classes[ent][PKS[ent][op[2] % len(PKS[ent])]]]
+            elif kind in ('filter_K', 'filter_P'):
+                ent = kind[-1]
+                res = select('x for x in %s if x.n > c and x.id > c' % ent, g, {'c': c})[:]
+            elif kind in ('get_K_kw', 'get_P_kw'):
+                # lookup by primary key plus the value the object holds for another attribute
+                ent = kind[4]
+                o = _get(st, ent, PKS[ent][op[2] % len(PKS[ent])])
+                o2 = st.classes[ent].get(id=o.id, n=op[3] % 7)
+                res = [] if o2 is None else [o2]
             else:
-                pk = PKS['K'][op[2] % len(PKS['K'])]
-                res = [K[pk]]
+                raise ValueError('unknown query kind %r' % kind)
             for o in res:
                 _remember(st, o)
             rec['rows'] = sorted('%s%d' % (type(o).__name__, o.id) for o in res)
@@ -399,6 +437,7 @@ def judge(case, events, states):
     coll = {}             # (ent, pk, coll) -> {'step', 'size', 'items'}   (exists once completely loaded AND observed)
     first_seen_step = {}  # observation key (tuple) -> step of the first observation
     reobserved = []       # (key, step)
+    own_written = {}      # key -> step of the session's own last assignment
     reader_fail = None
 
     def fail(tag, msg):
@@ -429,6 +468,12 @@ def judge(case, events, states):
             continue
         if ev['outcome'] != 'ok' or is_end:
             continue
+        for key, val in ev['value'].get('wrote', ()):
+            v.classes.add('own_write')
+            own_written[tuple(key)] = ev['step']
+            first_seen_step.setdefault(tuple(key), ev['step'])
+            if (key[1], key[3]) not in VOLATILE:
+                first_attr[(key[1], key[2], key[3])] = (ev['step'], val)
         for key, val in ev['value']['obs']:
             tkey = tuple(key)
             if tkey in first_seen_step:
@@ -443,8 +488,9 @@ def judge(case, events, states):
                 if k not in first_attr:
                     first_attr[k] = (ev['step'], val)
                 elif first_attr[k][1] != val:
-                    fail('attribute-changed', '%s[%d].%s read %r in step #%d and %r in step #%d of the same session'
-                         % (ent, pk, attr, first_attr[k][1], first_attr[k][0], val, ev['step']))
+                    how = 'was assigned' if own_written.get(tkey) == first_attr[k][0] else 'read'
+                    fail('attribute-changed', '%s[%d].%s %s %r in step #%d and read %r in step #%d of the same session'
+                         % (ent, pk, attr, how, first_attr[k][1], first_attr[k][0], val, ev['step']))
                 continue
             ent, pk, cname = key[1], key[2], key[3]
             k = (ent, pk, cname)
@@ -487,16 +533,15 @@ def judge(case, events, states):
                          % (rel, ent, pk, cname, st['items'], st['step'], key[4], val, ev['step']))
     # ---- non-triviality: the committed value behind an observed key changed after its first observation, and the reader
     #      came back to it (or was stopped by a repeatable-read error) afterwards
-    after = {ev['step']: ev['after'] for ev in events}
-    steps = sorted(after)
     changed_keys = {}
     for tkey, s0 in first_seen_step.items():
         if tkey[0] == 'a' and (tkey[1], tkey[3]) in VOLATILE:
             continue
-        base = committed_value(after[s0], tkey)
-        for s in steps:
-            if s > s0 and committed_value(after[s], tkey) != base:
-                changed_keys[tkey] = s
+        s0 = max(s0, own_written.get(tkey, s0))
+        for ev in events:
+            if ev['step'] > s0 and ev['actor'] != 0 and ev['before'] != ev['after'] and \
+                    committed_value(ev['before'], tkey) != committed_value(ev['after'], tkey):
+                changed_keys[tkey] = ev['step']
                 break
     if changed_keys:
         v.classes.add('changed_after_observation')
